@@ -461,6 +461,54 @@ int main()
                 }
                 out("X " + got);
             }
+            else if (c == "RAISEFT")
+            {
+                // RAISEFT <format> <s:tail> <i:number> <s:arg>...: a format object FIRST, further message parts behind
+                // it (lvalue and temporary format objects, nitro::raise and raise<custom_exception>)
+                auto f = nitro::format(unhex(w[1]));
+                std::string tail = unhex(w[2].substr(2));
+                int num = std::atoi(w[3].substr(2).c_str());
+                for (std::size_t i = 4; i < w.size(); ++i)
+                    f % unhex(w[i].substr(2));
+                std::string got1, got2, got3;
+                auto run = [&](auto&& thrower) {
+                    try
+                    {
+                        thrower();
+                    }
+                    catch (nitro::except::exception& e)
+                    {
+                        return std::string(e.what());
+                    }
+                    catch (std::exception& e)
+                    {
+                        return "!" + exname(e);
+                    }
+                    return std::string("!nothing-raised");
+                };
+                got1 = run([&] { nitro::raise(f, tail, num); });
+                got2 = run([&] { nitro::raise<custom_exception>(nitro::detail::formatter<char>(f), tail, num); });
+                got3 = run([&] { nitro::raise(num, f, tail); });
+                out("X nitro " + hex(got1) + " " + hex(got2) + " " + hex(got3));
+            }
+            else if (c == "JOINP")
+            {
+                // JOINP <infix> <elems...>: the elements as const char* and as std::string_view (types that can render
+                // as empty text without being std::string)
+                std::string infix = unhex(w[1]);
+                std::vector<std::string> keep;
+                for (std::size_t i = 2; i < w.size(); ++i)
+                    keep.push_back(unhex(w[i]));
+                std::vector<const char*> vp;
+                std::list<std::string_view> vv;
+                for (auto& k : keep)
+                {
+                    vp.push_back(k.c_str());
+                    vv.emplace_back(k);
+                }
+                out("J ok " + hex(nitro::lang::join(vp.begin(), vp.end(), infix)) + " " +
+                    hex(nitro::lang::join(vv.begin(), vv.end(), infix)));
+            }
             else
             {
                 std::fprintf(stderr, "driver: unknown command '%s'\n", c.c_str());
